@@ -42,6 +42,7 @@ type gstate struct {
 	pathSet bool
 	bg      []*gproc
 	stopped bool
+	expired bool // the deadline of the run (Case.DL == 1) has been reached: the context is done
 }
 
 type lineRes int
@@ -363,6 +364,15 @@ func (ev *evaluator) evalLine(line string) lineRes {
 	}
 	name, args := ws[0], ws[1:]
 	g := ev.g
+	if g.expired {
+		// only reached under ContinueOnError: what commands and their output look like once the
+		// context is done depends on timing; lines that only touch the tree are still judged
+		switch name {
+		case "mkdir", "exists", "env", "cd", "rm", "chmod", "symlink", "mv", "stop":
+		default:
+			return rUnknown
+		}
+	}
 	if name == helperName && !ev.c.NoMain {
 		if ev.c.Ree {
 			return rFail
@@ -728,12 +738,28 @@ func (ev *evaluator) reap(p *gproc) bool {
 	return true
 }
 
+// endedByDeadline: with a short deadline (Case.DL == 1) `wait` blocks on a sleeper that nobody
+// signalled until the deadline is reached; testscript then stops the command itself, and being
+// stopped that way is reported as "test timed out while running command": a failure of the
+// line whatever the polarity of the command.
+func (ev *evaluator) endedByDeadline(p *gproc) bool {
+	if ev.c.DL == 1 && !p.reaped && p.sleeper && !p.signalled {
+		ev.g.expired = true
+		ev.g.out, ev.g.err = unpredicted, unpredicted
+		return true
+	}
+	return false
+}
+
 func wrongStatus(p *gproc) bool { return (p.code == 0) == p.neg }
 
 func (ev *evaluator) waitAll() lineRes {
 	g := ev.g
 	var o, e string
 	for _, p := range g.bg {
+		if ev.endedByDeadline(p) {
+			return rFail
+		}
 		if !ev.reap(p) {
 			return rUnknown
 		}
@@ -762,6 +788,9 @@ func (ev *evaluator) findBg(name string) (int, *gproc) {
 func (ev *evaluator) waitOne(name string) lineRes {
 	i, p := ev.findBg(name)
 	if p == nil {
+		return rFail
+	}
+	if ev.endedByDeadline(p) {
 		return rFail
 	}
 	if !ev.reap(p) {
@@ -1028,6 +1057,13 @@ func (ev *evaluator) exec(neg bool, args []string) lineRes {
 		if neg {
 			return rOK
 		}
+		return rFail
+	}
+	if ev.c.DL == 1 && len(args) == 2 && args[1] == "sleep" {
+		// the helper sleeps past the deadline: testscript stops it, and that is a failure of the
+		// line with or without "!" (it is not the command failing)
+		g.expired = true
+		g.out, g.err, g.stdin = unpredicted, unpredicted, ""
 		return rFail
 	}
 	code, o, e, _, known := ev.helper(args[1:], false)
